@@ -118,15 +118,30 @@ def run(P, tier="quick"):
     D = Deg(f, P)
     # the comparison that guards `best_index = i`
     target = None
+    BEST = None
     for n in f.walk():
         if n.k == "IfStmt":
             kids = [k for k in n.kids if k is not None]
             cond, then = kids[0], kids[1]
-            sets_best = any(m.k == "BinaryOperator" and m.op == "=" and m.kids[0].strip().k == "DeclRefExpr" and
-                            (m.kids[0].strip().refname or "").startswith("best_index") for m in then.walk())
+            # the pivot choice: inside a counted loop, `if (metric > best) { BEST_INDEX = <loop counter>; ... }`
+            loops_ = [a_ for a_ in n.ancestors() if a_.k == "ForStmt"]
+            lvars = set()
+            for lp_ in loops_:
+                init_ = lp_.kids[0]
+                if init_ is not None:
+                    for m in init_.walk():
+                        if m.k == "VarDecl":
+                            lvars.add(m.get("decl"))
+            sets_best = None
+            for m in then.walk():
+                if m.k == "BinaryOperator" and m.op == "=" and m.kids[0].strip().k == "DeclRefExpr" and \
+                        m.kids[1].strip().k == "DeclRefExpr" and m.kids[1].strip().refdecl in lvars and \
+                        m.kids[0].strip().refkind == "local" and (m.kids[0].strip().ctype or "") == "int":
+                    sets_best = m.kids[0].strip()
             c = cond.strip()
-            if sets_best and c.k == "BinaryOperator" and c.op in (">", ">=", "<", "<="):
+            if sets_best is not None and c.k == "BinaryOperator" and c.op in (">", ">=", "<", "<="):
                 target = c
+                BEST = sets_best
     if target is None:
         raise AnalysisBroken("_vnacommon_lu: pivot selection comparison not found")
     metric = target.kids[0] if target.op in (">", ">=") else target.kids[1]
@@ -144,13 +159,13 @@ def run(P, tier="quick"):
     for n in f.walk():
         if n.k == "IfStmt":
             c = [x for x in n.kids if x is not None][0].strip()
-            if c.k == "BinaryOperator" and c.op == "!=" and {c.kids[0].strip().refname, c.kids[1].strip().refname} >= {"best_index"}:
+            if c.k == "BinaryOperator" and c.op == "!=" and BEST.refdecl in (c.kids[0].strip().refdecl, c.kids[1].strip().refdecl):
                 swap_if = n
     if swap_if is None:
         raise AnalysisBroken("_vnacommon_lu: row swap block (best_index != j) not found")
     c = [x for x in swap_if.kids if x is not None][0].strip()
-    other = [x.strip() for x in c.kids if x.strip().refname != "best_index"][0]
-    best = [x.strip() for x in c.kids if x.strip().refname == "best_index"][0]
+    other = [x.strip() for x in c.kids if x.strip().refdecl != BEST.refdecl][0]
+    best = [x.strip() for x in c.kids if x.strip().refdecl == BEST.refdecl][0]
     local_arrays = {v.get("decl"): v.get("name") for v in f.vardecls() if v.d.get("_dims") and "double" in v.ctype and "_Complex" not in v.ctype}
     moves = {}
     for m in swap_if.walk():
